@@ -61,6 +61,7 @@ Candidates(a) ==
     \cup {Node("relu", <<p>>, 0, FALSE, FALSE) : p \in T(a) \ {0}}
     \cup (IF Extras THEN {Node("sig", <<p>>, 0, FALSE, FALSE) : p \in T(a) \ {0}} ELSE {})
     \cup (IF Extras THEN {Node("bns", <<p>>, 0, FALSE, FALSE) : p \in T(a) \ {0}} ELSE {})      \* standalone BatchNorm
+    \cup (IF Extras THEN {Node("lsm", <<p>>, 0, FALSE, FALSE) : p \in T(a) \ {0}} ELSE {})      \* log_softmax over the features
     \cup {Node("pool", <<p>>, 0, FALSE, FALSE) : p \in {t \in NF(a) \ {0} : Sp(a, t) >= 2 /\ (Dim = 1 \/ SpW(a, t) >= 2)}}
     \cup {Node("flat", <<p>>, 0, FALSE, FALSE) : p \in NF(a)}
     \cup (IF Dim = 1 /\ Extras THEN {[Node("gsq", <<p>>, 0, FALSE, FALSE) EXCEPT !.d = dd] : p \in NF(a) \ {0}, dd \in {2, -1}} ELSE {})
